@@ -87,7 +87,13 @@ func child(args []string) {
 			total += n
 		}
 		data := pattern(total)
-		err := safe.WriteFileWithMode(dest, func(w io.Writer) error {
+		write := func(name string, fn func(io.Writer) error, m os.FileMode) error {
+			if m == 0o644 { // the mode-less entry point is WriteFileWithMode(..., 0o644)
+				return safe.WriteFile(name, fn)
+			}
+			return safe.WriteFileWithMode(name, fn, m)
+		}
+		err := write(dest, func(w io.Writer) error {
 			for i, n := range sz {
 				if i == failAfter {
 					return errors.New("writer failed")
@@ -104,9 +110,19 @@ func child(args []string) {
 		}, mode)
 		fmt.Printf("ret=%s\n", res(err))
 	case "file":
-		f, err := safe.CreateWithMode(dest, mode)
+		var f *safe.File
+		var err error
+		if mode == 0o644 { // the mode-less entry point is CreateWithMode(..., 0o644)
+			f, err = safe.Create(dest)
+		} else {
+			f, err = safe.CreateWithMode(dest, mode)
+		}
 		if err != nil {
 			fmt.Printf("ret=create-failed\n")
+			return
+		}
+		if f.OriginalName() != filepath.Clean(dest) { // documented: the (cleaned) name passed to Create
+			fmt.Printf("ret=original-name-differs\n")
 			return
 		}
 		var rs []string
